@@ -26,6 +26,10 @@ checks.update({
  "C34": gov("Pool invariants after every transaction (>=4 active, unique keys/indices, blacklisted keys cannot register) and epoch-change rules (view+1, active->consensus, quitting/black dropped, at most one per block) over sampled node-governance histories with timeouts reachable.", "5 C34"),
  "C35": gov("The registered record of a chain changes only when an approval takes effect, equals the approved request, and updates/removals stem from a request by the registered owner of the current registration.", "5 C35"),
 })
+checks.update({
+ "C13": gov("Byzantine submissions (wrong height/parent/timestamp/block root/state root, stale re-submission, sibling of the tip, valid controls) through AddBlock, ExecuteBlock+SubmitBlock and AddHeaders on any replica, interleaved with real histories: a committed block satisfies every acceptance rule evaluated by a reference (naive RFC 6962 block root); an uncommitted submission leaves every observable unchanged; lookups by height/hash return the committed block and transactions on every replica.", "5 C13"),
+ "C14": gov("Byzantine seals (0 / threshold-1 / threshold signers, duplicated member, foreign keys, signatures over another hash, bookkeepers without signatures, former and future members around hand-overs, config-change blocks that fail later) for N=4..9 under both threshold rules (strict rule reached on main net through an overlay knob on the 20,000,000 literal): committed/indexed => distinct members of the set in force with valid signatures >= required; the set in force is unchanged by uncommitted submissions.", "5 C14"),
+})
 not_applicable = {
  "C03": "pure function of a list of hashes: no schedule, clock, fault, I/O or second party for a simulation to vary (DESIGN 5, not applicable)",
  "C28": "pure arithmetic on two headers; decided by differential testing or proof against the spec, not by schedules or faults",
